@@ -79,7 +79,7 @@ def gen_plan(rng, tier, index):
         opts['pat_desc'] = 'pos'
     opts['use_correction'] = rng.chance(0.5) and opts['n_cv'] > 1
     kinds = rng.subset(RANDINT_FAULTS + SHUFFLE_FAULTS, 0.3, 1.0)
-    return {'routine': routine, 'spec': spec, 'method': method, 'models': models, 'opts': opts,
+    return {'routine': routine, 'spec': spec, 'method': method, 'models': models, 'opts': opts, 'bare_model': rng.chance(0.5),
             'faults': {'rate': rng.pick([0.0, 0.25, 0.5, 0.5]), 'kinds': kinds, 'k_targets': [2, 3, 4, 5, 6]},
             'meta6': rng.chance(0.5), 'meta7': rng.chance(0.25), 'meta8': rng.chance(0.005)}
 
@@ -211,6 +211,11 @@ class SpyFitter:
                            pattern_descriptor=pattern_descriptor, sigma_k=sigma_k)
         ent['theta'] = theta
         return theta
+
+
+def _marg(plan, models):
+    """the models argument: "a model or a list of models" -- a single model is sometimes passed bare"""
+    return models[0] if (plan.get('bare_model') and len(models) == 1) else models
 
 
 def _build_models(plan, log):
@@ -436,13 +441,13 @@ def run_routine(plan, ctx, script=None, strict=False, N_override=None, quiet_ora
             fit_arg = [f if f is not None else m.default_fitter for f, m in zip(fitters, models)]
         kw = {}
         if routine == 'eval_fixed':
-            res = evm.eval_fixed(models, data, theta=thetas, method=method)
+            res = evm.eval_fixed(_marg(plan, models), data, theta=thetas, method=method)
         elif routine in ('eval_bootstrap', 'eval_bootstrap_pattern'):
             fn = getattr(evm, routine)
-            res = fn(models, data, theta=thetas, method=method, N=N, pattern_descriptor=pdn, rdm_descriptor=rd,
+            res = fn(_marg(plan, models), data, theta=thetas, method=method, N=N, pattern_descriptor=pdn, rdm_descriptor=rd,
                      boot_noise_ceil=o['boot_noise_ceil'])
         elif routine == 'eval_bootstrap_rdm':
-            res = evm.eval_bootstrap_rdm(models, data, theta=thetas, method=method, N=N, rdm_descriptor=rd,
+            res = evm.eval_bootstrap_rdm(_marg(plan, models), data, theta=thetas, method=method, N=N, rdm_descriptor=rd,
                                          boot_noise_ceil=o['boot_noise_ceil'])
         elif routine == 'crossval':
             from checks.c05 import _call_generator, RDM_ONLY
@@ -456,14 +461,14 @@ def run_routine(plan, ctx, script=None, strict=False, N_override=None, quiet_ora
             obs.adv_test = [list(normlist(t[1])) for t in sets[1]]
             obs.cv_pdesc = pdn if o['cv_gen'] not in RDM_ONLY else 'index'
             obs.cv_nc = not any(_fold_small(tr, te) or te[0].n_cond < 4 for tr, te in zip(sets[0], sets[1]))
-            res = evm.crossval(models, data, sets[0], sets[1], ceil_set=sets[2], method=method, fitter=fit_arg,
+            res = evm.crossval(_marg(plan, models), data, sets[0], sets[1], ceil_set=sets[2], method=method, fitter=fit_arg,
                                pattern_descriptor=obs.cv_pdesc, calc_noise_ceil=obs.cv_nc)
         elif routine == 'bootstrap_crossval':
-            res = evm.bootstrap_crossval(models, data, method=method, fitter=fit_arg, k_pattern=o['k_pattern'],
+            res = evm.bootstrap_crossval(_marg(plan, models), data, method=method, fitter=fit_arg, k_pattern=o['k_pattern'],
                                          k_rdm=o['k_rdm'], N=N, n_cv=o['n_cv'], pattern_descriptor=pdn,
                                          rdm_descriptor=rd, boot_type=o['boot_type'], use_correction=o['use_correction'])
         elif routine == 'eval_dual_bootstrap':
-            res = evm.eval_dual_bootstrap(models, data, method=method, fitter=fit_arg, k_pattern=o['k_pattern'],
+            res = evm.eval_dual_bootstrap(_marg(plan, models), data, method=method, fitter=fit_arg, k_pattern=o['k_pattern'],
                                           k_rdm=o['k_rdm'], N=N, n_cv=o['n_cv'], pattern_descriptor=pdn,
                                           rdm_descriptor=rd, use_correction=o['use_correction'])
         elif routine == 'eval_dual_bootstrap_random':
@@ -472,17 +477,17 @@ def run_routine(plan, ctx, script=None, strict=False, N_override=None, quiet_ora
             obs.n_rdm_t = o['n_rdm_t'] % max(Gr - 1, 1)
             cands = [0] + [n for n in (3, 4) if n <= Gp - 3]   # a test set needs >= 3 conditions (or no split)
             obs.n_pattern_t = cands[o['n_pattern_t'] % len(cands)]
-            res = evm.eval_dual_bootstrap_random(models, data, method=method, fitter=fit_arg, n_pattern=obs.n_pattern_t,
+            res = evm.eval_dual_bootstrap_random(_marg(plan, models), data, method=method, fitter=fit_arg, n_pattern=obs.n_pattern_t,
                                                  n_rdm=obs.n_rdm_t, N=N, n_cv=o['n_cv'], pattern_descriptor=pdn,
                                                  rdm_descriptor=rd, boot_type=o['boot_type'],
                                                  use_correction=o['use_correction'])
         elif routine == 'bootstrap_testset':
-            res = btm.bootstrap_testset(models, data, method=method, fitter=fit_arg, N=N, pattern_descriptor=pdn,
+            res = btm.bootstrap_testset(_marg(plan, models), data, method=method, fitter=fit_arg, N=N, pattern_descriptor=pdn,
                                         rdm_descriptor=rd)
         elif routine == 'bootstrap_testset_pattern':
-            res = btm.bootstrap_testset_pattern(models, data, method=method, fitter=fit_arg, N=N, pattern_descriptor=pdn)
+            res = btm.bootstrap_testset_pattern(_marg(plan, models), data, method=method, fitter=fit_arg, N=N, pattern_descriptor=pdn)
         elif routine == 'bootstrap_testset_rdm':
-            res = btm.bootstrap_testset_rdm(models, data, method=method, fitter=fit_arg, N=N, rdm_descriptor=rd)
+            res = btm.bootstrap_testset_rdm(_marg(plan, models), data, method=method, fitter=fit_arg, N=N, rdm_descriptor=rd)
         else:
             raise HarnessError('unknown routine ' + routine)
     obs.res = res
@@ -1073,19 +1078,19 @@ def _run_unseamed(plan):
         fit_arg = [m.default_fitter for m in models]
         rd, pdn, N = o['rdm_desc'], o['pat_desc'], o['N']
         if routine == 'eval_fixed':
-            res = evm.eval_fixed(models, data, theta=thetas, method=method)
+            res = evm.eval_fixed(_marg(plan, models), data, theta=thetas, method=method)
         elif routine in ('eval_bootstrap', 'eval_bootstrap_pattern'):
-            res = getattr(evm, routine)(models, data, theta=thetas, method=method, N=N, pattern_descriptor=pdn,
+            res = getattr(evm, routine)(_marg(plan, models), data, theta=thetas, method=method, N=N, pattern_descriptor=pdn,
                                         rdm_descriptor=rd, boot_noise_ceil=o['boot_noise_ceil'])
         elif routine == 'eval_bootstrap_rdm':
-            res = evm.eval_bootstrap_rdm(models, data, theta=thetas, method=method, N=N, rdm_descriptor=rd,
+            res = evm.eval_bootstrap_rdm(_marg(plan, models), data, theta=thetas, method=method, N=N, rdm_descriptor=rd,
                                          boot_noise_ceil=o['boot_noise_ceil'])
         elif routine == 'bootstrap_crossval':
-            res = evm.bootstrap_crossval(models, data, method=method, fitter=fit_arg, k_pattern=o['k_pattern'],
+            res = evm.bootstrap_crossval(_marg(plan, models), data, method=method, fitter=fit_arg, k_pattern=o['k_pattern'],
                                          k_rdm=o['k_rdm'], N=N, n_cv=o['n_cv'], pattern_descriptor=pdn,
                                          rdm_descriptor=rd, boot_type=o['boot_type'], use_correction=o['use_correction'])
         elif routine == 'eval_dual_bootstrap':
-            res = evm.eval_dual_bootstrap(models, data, method=method, fitter=fit_arg, k_pattern=o['k_pattern'],
+            res = evm.eval_dual_bootstrap(_marg(plan, models), data, method=method, fitter=fit_arg, k_pattern=o['k_pattern'],
                                           k_rdm=o['k_rdm'], N=N, n_cv=o['n_cv'], pattern_descriptor=pdn,
                                           rdm_descriptor=rd, use_correction=o['use_correction'])
         else:
